@@ -829,7 +829,7 @@ def run_framing(ctx):
               link_tla(by['fast3s'], [1, 3], [0, 2]),
               link_tla(by['pkone1'], [0, 1, 2]), link_tla(by['pkone2'], [0, 1, 2])]
         bounds = dict(MaxFrames=2, MaxFaults=1, MaxInsert=1, MaxFill=2, MaxChunk=11)
-        mcseq = [link_tla(by['fast3s'], [0, 1, 2, 3, 4, 5], [0]), link_tla(by['fast4'], [1, 3, 5], [0])]
+        mcseq = [link_tla(by['fast3s'], [0, 1, 3, 4, 5], [0]), link_tla(by['fast4'], [1, 3, 5], [0])]
     with open(wd + '/SerialFramingMC.tla', 'w') as f:
         f.write(framing_mc_module(mc))
     B = lambda b, spec, conf, dev, props: FRAMING_CFG % (spec, conf, b['MaxFrames'], b['MaxFaults'], b['MaxInsert'],
